@@ -428,8 +428,12 @@ package hermes
 // Astronomical helper: the day length range is PROVED from the range of asin; the sign of the extraterrestrial
 // radiation needs a trigonometric identity outside the solver's reach and stays an ASSUMED postcondition (listed).
 //@ func CalculateDayLenght
-//@   serves C08
+//@   serves C08, C06, C09
 //@   ensures daylength: 0 <= DL && DL <= 24
+//@   ensures[C08,C09] effective: 0 <= DLE && DLE <= 24 && 0 <= DLP && DLP <= 24
+// every inverse trigonometric function and square root gets an argument inside its domain at every latitude (polar day
+// and night included): outside it the float64 functions return NaN, which passes every later cap
+//@   safety[C08,C06,C09] domain
 //@   ensures-assumed radiation: EXT >= 0 && EXT == ufreal("extraterrestrial", tag, lat)
 //@   modifies nothing
 
@@ -1346,6 +1350,10 @@ package hermes
 //@   requires year: 0 <= JZ && JZ < 200 && g.JTAG >= 365
 //@   ensures onrecord: yearly == old(yearly) + ite(old(g.TAG.Index) + 1 == OUTDAY, 1, 0)
 //@   ensures calendar: unchanged(g.TAG.Index, g.J, g.JTAG)
+// the annual reset restarts the annual sums only: the organic pools, their mineralised-amount counters and the
+// applied/dissolved fertiliser bookkeeping run through the whole simulation (C07: pool + counter change only through inputs)
+//@   serves C07
+//@   ensures[C07] poolcounters: unchanged(g.MINAOS, g.MINFOS, g.NAOS, g.NFOS, g.DSUMM, g.UMS, g.NH4Sum, g.NH4UMS, g.C1)
 
 //@ region HermesSession.Run$1#daily from "if OUTINT > 0 { if (ZEIT % OUTINT) == 0 {" to "if OUTINT > 0 { if (ZEIT % OUTINT) == 0 {"
 //@   serves C05
@@ -1968,6 +1976,14 @@ package hermes
 //@   uses HermesSession.Run$1#deposition: units
 //@   uses HermesSession.Run$1#substeps: layers units day outn drain
 //@   uses HermesSession.Run$1#pereset: layers
+//@   uses HermesSession.Run$1#measured: -
+// C10 (in full): what Nitro has put into the fertiliser pools on a day is still there at the end of that day - nothing the
+// day loop does after the sub-step loop (denitrification, output, annual reset, forecast hooks) takes it away again
+//@   ghost var dsumAfter real
+//@   ghost var nh4After real
+//@   after stmt "for SUBD := 1; SUBD <= int(STEPS); SUBD++ {": ghost dsumAfter = g.DSUMM
+//@   after stmt "for SUBD := 1; SUBD <= int(STEPS); SUBD++ {": ghost nh4After = g.NH4Sum
+//@   before stmt "if ZEIT == g.ENDE {": assert[C10,C07] keptinfull: g.DSUMM == dsumAfter && g.NH4Sum == nh4After
 //@   uses HermesSession.Run$1#autoirr: day units
 //@   establishes Evatra: layers units day method
 //@   establishes Denitmo: day
@@ -1979,3 +1995,22 @@ package hermes
 //@   invariant consts: consts()
 //@   invariant calendar: caldr()
 //@   invariant backup: backups()
+
+// measured start values (Nmin sampling date): the state is overwritten by the measurement and the balance terms restart -
+// applied and dissolved fertiliser TOGETHER (a pool that restarts alone leaves more dissolved than applied); on every
+// other day the block touches nothing
+//@ region HermesSession.Run$1#measured from "if ZEIT == g.MESS[g.MZ-1] {" to "if ZEIT == g.MESS[g.MZ-1] {"
+//@   serves C07, C10
+//@   define due() = ZEIT == old(g.MESS[g.MZ-1])
+//@   requires fert: g.UMS <= g.DSUMM && g.NH4UMS <= g.NH4Sum
+//@   ensures[C07] dissolved: g.UMS <= g.DSUMM && g.NH4UMS <= g.NH4Sum
+//@   ensures[C07,C10] restart: due() ==> g.DSUMM == 0 && g.UMS == 0
+//@   ensures[C07,C10] otherdays: !due() ==> unchanged(g.DSUMM, g.UMS, g.NH4Sum, g.NH4UMS, g.C1, g.WG, g.MZ, g.OUTSUM, g.SICKER, g.CAPSUM)
+//@   ensures pools: unchanged(g.NAOS, g.NFOS, g.MINAOS, g.MINFOS)
+
+// C09  gross photosynthesis: the effective day length the light-use formulas divide by is positive whenever the sun rises
+// (north of ~58.6 degrees the effective day length is 0 on days whose astronomical day length is still positive), and so
+// is the assimilation rate at light saturation
+//@ func radia
+//@   serves C09
+//@   before stmt "REFLC := .08": assert[C09] effectiveday: DLE > 0 && amax > 0
